@@ -39,7 +39,7 @@ def scope(tier, seed):
          'D': 'size-3 formulas over {p,q}: block(s) of %d x 82 representatives of K(<=2)' % NB3}
     if tier == 'thorough':
         d['D'] = 'all 20048 size-3 formulas over {p,q} x 82 representatives of K(<=2)'
-        d['E'] = '3836 representatives of K(3) x all 672 size-2 formulas over {p,q}'
+        d['E'] = '3836 representatives of K(3) x a seed-indexed sixth (112) of the 672 size-2 formulas over {p,q}'
     return d
 
 
@@ -218,7 +218,7 @@ def run_shard(shard, tier, seed, acc):
                 check_one(k, Kl, g, acc, audit=(i % 16 == 0))
         return
     if kind == 'E':
-        forms = spaces.path_by_size(2, spaces.LEAVES2)
+        forms = spaces.path_by_size(2, spaces.LEAVES2)[(seed % 6)::6]
         for k in spaces.kripke_reps(3)[shard[1]:shard[2]]:
             Kl = lib.to_kripke(k)
             for j, g in enumerate(forms):
